@@ -16,7 +16,8 @@ Qed.
 
 
 Section Windows.
-  Variables (l r : list N) (fa fb : nat -> nat).
+  Context {A : Type}.
+  Variables (l r : list A) (fa fb : nat -> nat).
 
   Lemma diffs_sum n : (forall i, i < n -> fa i <= fa (S i)) -> (forall i, i < n -> fb i <= fb (S i)) ->
     (forall i, i < n -> fa (S i) - fa i = fb (S i) - fb i) -> fa n - fa 0 = fb n - fb 0.
@@ -28,7 +29,7 @@ Section Windows.
     specialize (Ha n ltac:(lia)). specialize (Hb n ltac:(lia)). specialize (Hd n ltac:(lia)). lia.
   Qed.
 
-  Lemma window_split (x : list N) (f : nat -> nat) n : f 0 <= f n -> f n <= f (S n) ->
+  Lemma window_split (x : list A) (f : nat -> nat) n : f 0 <= f n -> f n <= f (S n) ->
     firstn (f (S n) - f 0) (skipn (f 0) x) = firstn (f n - f 0) (skipn (f 0) x) ++ firstn (f (S n) - f n) (skipn (f n) x).
   Proof.
     intros H0 H1. replace (f (S n) - f 0) with ((f n - f 0) + (f (S n) - f n)) by lia.
@@ -112,19 +113,21 @@ Qed.
 Definition bin_slice (a : parr) (w j : nat) : list N := bytes_between (buf a 1) (off_at a w j) (off_at a w (j + 1)).
 Definition noff (a : parr) (w j : nat) : nat := Z.to_nat (off_at a w j).
 
-Record bin_ok (a : parr) (w : nat) : Prop := {
+Record offs_ok (a : parr) (w limit : nat) : Prop := {
   bo_nonneg : forall i, i <= p_len a -> (0 <= off_at a w i)%Z;
   bo_mono : forall i, i < p_len a -> (off_at a w i <= off_at a w (S i))%Z;
-  bo_last : (off_at a w (p_len a) <= Z.of_nat (length (buf a 1)))%Z }.
+  bo_last : (off_at a w (p_len a) <= Z.of_nat limit)%Z }.
+(* (Large)Binary / Utf8: the offsets index the value buffer *)
+Notation bin_ok a w := (offs_ok a w (length (buf a 1))).
 
-Lemma noff_mono a w : bin_ok a w -> forall i, i < p_len a -> noff a w i <= noff a w (S i).
-Proof. intros H i Hi. unfold noff. pose proof (bo_mono a w H i Hi). pose proof (bo_nonneg a w H i ltac:(lia)). lia. Qed.
-Lemma noff_le a w : bin_ok a w -> forall i j, i <= j -> j <= p_len a -> noff a w i <= noff a w j.
-Proof. intros H i j Hij Hj. apply (mono_le (noff a w) (p_len a)); [apply noff_mono, H | exact Hij | exact Hj]. Qed.
-Lemma noff_last a w : bin_ok a w -> noff a w (p_len a) <= length (buf a 1).
-Proof. intros H. unfold noff. pose proof (bo_last a w H). pose proof (bo_nonneg a w H (p_len a) ltac:(lia)). lia. Qed.
-Lemma off_noff a w i : bin_ok a w -> i <= p_len a -> off_at a w i = Z.of_nat (noff a w i).
-Proof. intros H Hi. unfold noff. pose proof (bo_nonneg a w H i Hi). lia. Qed.
+Lemma noff_mono a w {lim} : offs_ok a w lim -> forall i, i < p_len a -> noff a w i <= noff a w (S i).
+Proof. intros H i Hi. unfold noff. pose proof (bo_mono a w lim H i Hi). pose proof (bo_nonneg a w lim H i ltac:(lia)). lia. Qed.
+Lemma noff_le a w {lim} : offs_ok a w lim -> forall i j, i <= j -> j <= p_len a -> noff a w i <= noff a w j.
+Proof. intros H i j Hij Hj. apply (mono_le (noff a w) (p_len a)); [apply (noff_mono a w H) | exact Hij | exact Hj]. Qed.
+Lemma noff_last a w {lim} : offs_ok a w lim -> noff a w (p_len a) <= lim.
+Proof. intros H. unfold noff. pose proof (bo_last a w lim H). pose proof (bo_nonneg a w lim H (p_len a) ltac:(lia)). lia. Qed.
+Lemma off_noff a w {lim} i : offs_ok a w lim -> i <= p_len a -> off_at a w i = Z.of_nat (noff a w i).
+Proof. intros H Hi. unfold noff. pose proof (bo_nonneg a w lim H i Hi). lia. Qed.
 
 Lemma bin_slice_nat a w j : bin_ok a w -> j < p_len a ->
   bin_slice a w j = firstn (noff a w (S j) - noff a w j) (skipn (noff a w j) (buf a 1)).
@@ -249,10 +252,10 @@ Proof.
   - (* no null in the range: lengths, then one comparison of the two windows *)
     pose proof (proj1 (contains_nulls_false_iff _ _ _) Ec) as Hall.
     set (fa := fun i => noff a w (ls + i)). set (fb := fun i => noff b w (rs + i)).
-    assert (Ma : forall i, i < n -> fa i <= fa (S i)) by (intros i Hi; unfold fa; replace (ls + S i) with (S (ls + i)) by lia; apply noff_mono; [exact Ha | lia]).
-    assert (Mb : forall i, i < n -> fb i <= fb (S i)) by (intros i Hi; unfold fb; replace (rs + S i) with (S (rs + i)) by lia; apply noff_mono; [exact Hb | lia]).
-    assert (La : fa n <= length (buf a 1)) by (unfold fa; etransitivity; [apply (noff_le a w Ha (ls + n) (p_len a)); lia | apply noff_last, Ha]).
-    assert (Lb : fb n <= length (buf b 1)) by (unfold fb; etransitivity; [apply (noff_le b w Hb (rs + n) (p_len b)); lia | apply noff_last, Hb]).
+    assert (Ma : forall i, i < n -> fa i <= fa (S i)) by (intros i Hi; unfold fa; replace (ls + S i) with (S (ls + i)) by lia; apply (noff_mono a w Ha); lia).
+    assert (Mb : forall i, i < n -> fb i <= fb (S i)) by (intros i Hi; unfold fb; replace (rs + S i) with (S (rs + i)) by lia; apply (noff_mono b w Hb); lia).
+    assert (La : fa n <= length (buf a 1)) by (unfold fa; etransitivity; [apply (noff_le a w Ha (ls + n) (p_len a)); lia | apply (noff_last a w Ha)]).
+    assert (Lb : fb n <= length (buf b 1)) by (unfold fb; etransitivity; [apply (noff_le b w Hb (rs + n) (p_len b)); lia | apply (noff_last b w Hb)]).
     pose proof (windows_eq (buf a 1) (buf b 1) fa fb n Ma Mb La Lb) as W.
     assert (Hgoal : (forall i, i < n -> slot_valid a (ls + i) = true -> bin_slice a w (ls + i) = bin_slice b w (rs + i))
                     <-> (forall i, i < n -> firstn (fa (S i) - fa i) (skipn (fa i) (buf a 1)) = firstn (fb (S i) - fb i) (skipn (fb i) (buf b 1)))).
@@ -269,8 +272,8 @@ Proof.
       unfold offs_range. replace (n + 1) with (S n) by lia. rewrite !diffs_map, map_seq_ext_iff.
       split; intros H i Hi; specialize (H i Hi).
       - unfold fa, fb, noff.
-        pose proof (bo_nonneg a w Ha (ls + i) ltac:(lia)). pose proof (bo_nonneg a w Ha (ls + S i) ltac:(lia)).
-        pose proof (bo_nonneg b w Hb (rs + i) ltac:(lia)). pose proof (bo_nonneg b w Hb (rs + S i) ltac:(lia)). lia.
+        pose proof (bo_nonneg a w _ Ha (ls + i) ltac:(lia)). pose proof (bo_nonneg a w _ Ha (ls + S i) ltac:(lia)).
+        pose proof (bo_nonneg b w _ Hb (rs + i) ltac:(lia)). pose proof (bo_nonneg b w _ Hb (rs + S i) ltac:(lia)). lia.
       - pose proof (Ma i Hi). pose proof (Mb i Hi). unfold fa, fb in *.
         rewrite (off_noff a w (ls + i) Ha ltac:(lia)), (off_noff a w (ls + S i) Ha ltac:(lia)),
                 (off_noff b w (rs + i) Hb ltac:(lia)), (off_noff b w (rs + S i) Hb ltac:(lia)). lia. }
